@@ -371,7 +371,9 @@ def render(spec):
                 w("%s{" % ind)
                 w("%s    let mut %s = Blueprint::new();" % (ind, nv))
                 emit_ops(nb["ops"], nv, depth + 1)
-                if nb.get("prefix"):
+                if nb.get("prefix") and nb.get("domain"):
+                    w("%s    %s.prefix(\"%s\").domain(\"%s\").nest(%s);" % (ind, var, nb["prefix"], nb["domain"], nv))
+                elif nb.get("prefix"):
                     w("%s    %s.prefix(\"%s\").nest(%s);" % (ind, var, nb["prefix"], nv))
                 elif nb.get("domain"):
                     w("%s    %s.domain(\"%s\").nest(%s);" % (ind, var, nb["domain"], nv))
